@@ -11,6 +11,7 @@ pub struct SharedContext {
     defs: HashMap<String, Schema>,
     seen: HashSet<String>,
     n_compiled: usize,
+    ref_depth: usize,
     pending_warnings: Vec<String>,
     pattern_cache: PatternPropertyCache,
 }
@@ -99,6 +100,7 @@ impl SharedContext {
             defs: HashMap::default(),
             seen: HashSet::default(),
             n_compiled: 0,
+            ref_depth: 0,
             pending_warnings: Vec::new(),
             pattern_cache: PatternPropertyCache::default(),
         }
@@ -133,6 +135,21 @@ impl Context<'_> {
             return true;
         }
         false
+    }
+
+    /// Run `f` one level deeper in a chain of `$ref`s that is being resolved; each level
+    /// nests the compiler's recursion, so the depth is bounded like the intersection depth.
+    pub fn with_ref_depth<T>(&self, f: impl FnOnce() -> Result<T>) -> Result<T> {
+        {
+            let mut shared = self.shared.borrow_mut();
+            if shared.ref_depth >= self.options.max_stack_level {
+                bail!("$ref chain too deep");
+            }
+            shared.ref_depth += 1;
+        }
+        let r = f();
+        self.shared.borrow_mut().ref_depth -= 1;
+        r
     }
 
     pub fn increment(&self) -> Result<()> {
